@@ -343,7 +343,7 @@ FUNCTIONS: Dict[str, Callable] = {
     'int': lambda v: Decimal(int(v)),
     'float': lambda v: Decimal(float(v)),
     'str': str,
-    'dict': dict,
+    'dict': lambda *args: dict(*args),  # not the class itself: dict[...] would give a types.GenericAlias
     'list': lambda *args: [*args],
 
     # strings
